@@ -922,6 +922,17 @@ func (f *frame) applyMods(mods []ModLoc, envPre *env, st *state, reach, rel stri
 				vc.havocKey(st, k)
 			}
 		default:
+			if _, isContents := m.Place.(*ECall); !isContents {
+				if ps := envPre.value(m.Place); ps.pl != nil && ps.t == "" && ps.pl.kind == plElem {
+					// a field of one slice/array element: only that element's field becomes unknown
+					nv := f.freshOf(ps.pl.typ, "hv_elem", nil, reach)
+					pre := st.clone()
+					vc.writePlace(st, ps.pl, nv.t)
+					k := vc.elemKey(ps.pl.elemT)
+					st.h[k] = vc.define("h_"+k, vc.heapSort(k), ite(reach, st.h[k], vc.hget(pre, k)))
+					continue
+				}
+			}
 			for _, kl := range envPre.modPlace(m.Place) {
 				so := vc.heapSort(kl.key)
 				if kl.ref == "" || !strings.HasPrefix(so, "(Array Ref ") {
@@ -975,6 +986,8 @@ func (f *frame) applyCall(abs string, callee *ssa.Function, args, binds []*sym, 
 		res = f.inlineCall(callee, args, binds, st, reach, rt)
 	case c != nil && c.Inline && callee != nil && len(callee.Blocks) > 0 && vc.depth < 3:
 		res = f.inlineCall(callee, args, binds, st, reach, rt)
+	case c == nil && callee == nil && f.funcSetCall(abs, args, st, reach, pos, rt) != nil:
+		res = f.lastFuncSetResult
 	case c == nil:
 		// unknown callee: everything may change
 		if vc.w.notesOn() {
@@ -983,7 +996,9 @@ func (f *frame) applyCall(abs string, callee *ssa.Function, args, binds []*sym, 
 		for _, a := range args {
 			f.symTerm(a)
 		}
+		preH := st.clone()
 		vc.havocAll(st, reach)
+		f.preserveLocals(preH, st, args)
 		res = f.freshOf(rt, "r_"+shortName(rel), st, reach)
 	default:
 		res = f.applyContract(c, rel, callee, args, binds, st, reach, pos, rt)
@@ -1038,6 +1053,11 @@ func (f *frame) applyContract(c *Contract, rel string, callee *ssa.Function, arg
 	}
 	// frame
 	f.applyMods(c.Modifies, envPre, st, reach, rel)
+
+	if st.epoch != pre.epoch {
+		// a `modifies *` callee cannot reach this function's non-escaping locals
+		f.preserveLocals(pre, st, args)
+	}
 	// results: only a callee that declares allocation yields values known to be allocated in the post-state;
 	// otherwise allocation facts about results come from the callee's postconditions alone
 	var res *sym
@@ -1605,4 +1625,211 @@ func (f *frame) nativeSprintf(args []*sym, st *state, reach string) *sym {
 	res := vc.fresh("sprintf", "String")
 	vc.assume(reach, imp(fmt.Sprintf("(= (slen %s) %d)", sl, len(verbs)), eq(res, cat)))
 	return &sym{t: res, typ: types.Typ[types.String]}
+}
+
+
+// funcSetCall handles a dynamic call inside a function whose contract declares `funcset G = f1, f2, ...`: the
+// callee is one of the listed functions (the table G is immutable and initialised with exactly these, checked
+// by validateFuncSet), so the call is a nondeterministic choice between their contracts.
+func (f *frame) funcSetCall(abs string, args []*sym, st *state, reach string, pos token.Pos, rt types.Type) *sym {
+	vc := f.vc
+	f.lastFuncSetResult = nil
+	c := vc.c
+	if c == nil || len(c.FuncSet) == 0 || !strings.HasPrefix(abs, "dyn:") {
+		return nil
+	}
+	var fns []*ssa.Function
+	for _, n := range c.FuncSet {
+		fn := vc.w.funcs[absName(n, c.Pkg)]
+		if fn == nil {
+			return nil
+		}
+		if len(fn.Params) != len(args) {
+			return nil
+		}
+		fns = append(fns, fn)
+	}
+	pre := st.clone()
+	var conds []string
+	var sts []*state
+	var results [][]*sym
+	remaining := "true"
+	for i, fn := range fns {
+		sel := "true"
+		if i < len(fns)-1 {
+			sel = vc.fresh("pick_"+fn.Name(), "Bool")
+		}
+		cond := and(remaining, sel)
+		remaining = and(remaining, not(sel))
+		br := pre.clone()
+		r := f.applyCall(fn.String(), fn, args, nil, br, and(reach, cond), pos, rt)
+		conds = append(conds, vc.define("fs", "Bool", cond))
+		sts = append(sts, br)
+		if r != nil && r.tuple != nil {
+			results = append(results, r.tuple)
+		} else if r != nil {
+			results = append(results, []*sym{r})
+		} else {
+			results = append(results, nil)
+		}
+	}
+	m := vc.mergeStates(conds, sts)
+	st.adopt(m)
+	// merge results
+	n := len(results[0])
+	var out []*sym
+	for k := 0; k < n; k++ {
+		t := results[len(results)-1][k].t
+		for i := len(results) - 2; i >= 0; i-- {
+			t = ite(conds[i], results[i][k].t, t)
+		}
+		ty := results[0][k].typ
+		out = append(out, &sym{t: vc.define("fsr", vc.w.so.sortOf(ty), t), typ: ty})
+	}
+	var res *sym
+	switch {
+	case n == 0:
+		res = &sym{typ: rt}
+	case n == 1:
+		res = out[0]
+	default:
+		res = &sym{typ: rt, tuple: out}
+	}
+	f.lastFuncSetResult = res
+	return res
+}
+
+// validateFuncSet checks the funcset directive against the package initialiser: the global is never written
+// outside init, and the function values stored into its backing array are exactly the listed functions.
+func (vc *FnVC) validateFuncSet(c *Contract) string {
+	pkg := vc.w.spkgs[c.Pkg]
+	if pkg == nil {
+		return "package not found"
+	}
+	g, ok := pkg.Members[c.FuncSetGlobal].(*ssa.Global)
+	if !ok {
+		return "no such global " + c.FuncSetGlobal
+	}
+	if vc.w.mutGlobal[g] {
+		return "global " + c.FuncSetGlobal + " is written outside the package initialiser"
+	}
+	init := pkg.Func("init")
+	if init == nil {
+		return "no package initialiser"
+	}
+	found := map[string]bool{}
+	stored := false
+	for _, b := range init.Blocks {
+		for _, in := range b.Instrs {
+			st, ok := in.(*ssa.Store)
+			if !ok {
+				continue
+			}
+			if st.Addr == ssa.Value(g) {
+				stored = true
+				// the stored slice: walk back to its array and collect the function values stored into it
+				if sl, ok := st.Val.(*ssa.Slice); ok {
+					for _, b2 := range init.Blocks {
+						for _, in2 := range b2.Instrs {
+							if s2, ok := in2.(*ssa.Store); ok {
+								if ia, ok := s2.Addr.(*ssa.IndexAddr); ok && ia.X == sl.X {
+									if fn, ok := s2.Val.(*ssa.Function); ok {
+										found[relName(fn.String(), c.Pkg)] = true
+									} else if ct, ok := s2.Val.(*ssa.ChangeType); ok {
+										if fn, ok := ct.X.(*ssa.Function); ok {
+											found[relName(fn.String(), c.Pkg)] = true
+										}
+									} else {
+										found["?"] = true
+									}
+								}
+							}
+						}
+					}
+				}
+			}
+		}
+	}
+	if !stored {
+		return "the initialiser does not assign " + c.FuncSetGlobal
+	}
+	want := map[string]bool{}
+	for _, n := range c.FuncSet {
+		want[n] = true
+	}
+	for n := range found {
+		if !want[n] {
+			return "the table holds " + n + ", which the funcset directive does not list"
+		}
+	}
+	for n := range want {
+		if !found[n] {
+			return "the funcset directive lists " + n + ", which the table does not hold"
+		}
+	}
+	return ""
+}
+
+
+// preserveLocals: after a havoc-everything call, the cells of this function's local variables whose address does
+// not escape (ssa.Alloc with Heap == false) and was not handed to the call still hold what they held before.
+func (f *frame) preserveLocals(pre, st *state, args []*sym) {
+	vc := f.vc
+	frames := []*frame{f}
+	if p := f.parent(); p != nil && p != f {
+		frames = append(frames, p)
+	}
+	for _, fr := range frames {
+		if fr.fn == nil {
+			continue
+		}
+		for _, b := range fr.fn.Blocks {
+			for _, in := range b.Instrs {
+				a, ok := in.(*ssa.Alloc)
+				if !ok || a.Heap {
+					continue
+				}
+				s, ok := fr.vals[a]
+				if !ok || s.t == "" {
+					continue
+				}
+				passed := false
+				for _, arg := range args {
+					if arg.t == s.t || (arg.pl != nil && arg.pl.root == s.t) {
+						passed = true
+					}
+				}
+				if passed {
+					continue
+				}
+				for _, k := range fr.staticKeysOfAlloc(a) {
+					so := vc.heapSort(k)
+					if !strings.HasPrefix(so, "(Array Ref ") {
+						continue
+					}
+					st.h[k] = vc.define("h_"+k, so, fmt.Sprintf("(store %s %s (select %s %s))", vc.hget(st, k), s.t, vc.hget(pre, k), s.t))
+				}
+			}
+		}
+	}
+}
+
+
+// havocInterior: a callee that receives the address of a slice/array element or of a cell may write through it;
+// the contract speaks about the opaque pointer, so the location itself is havocked (sound over-approximation).
+func (f *frame) havocInterior(args []*sym, st *state, reach string) {
+	vc := f.vc
+	for _, a := range args {
+		if a.pl == nil || a.t == "" {
+			continue
+		}
+		switch a.pl.kind {
+		case plElem:
+			k := vc.elemKey(a.pl.elemT)
+			h := vc.hget(st, k)
+			inner := "(select " + h + " " + a.pl.base + ")"
+			nv := vc.fresh("hv_elem", vc.w.so.sortOf(a.pl.elemT))
+			vc.hset(st, k, ite(reach, "(store "+h+" "+a.pl.base+" (store "+inner+" "+a.pl.idx+" "+nv+"))", h))
+		}
+	}
 }
